@@ -757,6 +757,17 @@ class vatomic {
     {
         return rmw([d](T o) { return (T)(o & d); }, mo);
     }
+    template<class U = T>
+    U fetch_xor(U d, memory_order mo = memory_order_seq_cst) noexcept
+    {
+        return rmw([d](T o) { return (T)(o ^ d); }, mo);
+    }
+    template<class U = T>
+    U operator|=(U d) noexcept { return (U)(fetch_or(d) | d); }
+    template<class U = T>
+    U operator&=(U d) noexcept { return (U)(fetch_and(d) & d); }
+    template<class U = T>
+    U operator^=(U d) noexcept { return (U)(fetch_xor(d) ^ d); }
     T operator++() noexcept { return (T)(fetch_add((T)1) + 1); }
     T operator++(int) noexcept { return fetch_add((T)1); }
     T operator--() noexcept { return (T)(fetch_sub((T)1) - 1); }
@@ -1659,8 +1670,43 @@ inline void ret_ev(const char* name, long res = 0, long w = 0)
 
 }  // namespace vrt
 
+// lock wrappers: the renaming below turns the member name `mutex()` of std::unique_lock / std::shared_lock into `vmutex()` in
+// every translation unit that uses it, so the lock types are renamed as well, to derived classes that offer that spelling
+namespace std {
+template<class M>
+class vunique_lock: public unique_lock<M> {
+  public:
+    using unique_lock<M>::unique_lock;
+    vunique_lock() noexcept = default;
+    vunique_lock(vunique_lock&&) noexcept = default;
+    vunique_lock& operator=(vunique_lock&&) noexcept = default;
+    M* vmutex() const noexcept { return unique_lock<M>::mutex(); }
+};
+template<class M>
+class vshared_lock: public shared_lock<M> {
+  public:
+    using shared_lock<M>::shared_lock;
+    vshared_lock() noexcept = default;
+    vshared_lock(vshared_lock&&) noexcept = default;
+    vshared_lock& operator=(vshared_lock&&) noexcept = default;
+    M* vmutex() const noexcept { return shared_lock<M>::mutex(); }
+};
+template<class M>
+void swap(vunique_lock<M>& a, vunique_lock<M>& b) noexcept
+{
+    a.swap(b);
+}
+template<class M>
+void swap(vshared_lock<M>& a, vshared_lock<M>& b) noexcept
+{
+    a.swap(b);
+}
+}  // namespace std
+
 // ====================================================================================================
 // the renaming. Everything after this point (the library headers) sees the instrumented primitives.
+#define unique_lock vunique_lock
+#define shared_lock vshared_lock
 #define atomic vatomic
 #define atomic_bool vatomic_bool
 #define atomic_int vatomic_int
